@@ -66,7 +66,7 @@ def harvest_corpus(max_len=400):
 # ---- one path --------------------------------------------------------------------------------------
 
 class PathResult:
-    __slots__ = ('outcome', 'exc', 'ast', 'message', 'tokens', 'pulled', 'parser')
+    __slots__ = ('outcome', 'exc', 'ast', 'message', 'tokens', 'pulled', 'parser', 'first_error')
 
 
 def run_tail(dialect, L, P, tokens, full_error_handling=True):
@@ -82,8 +82,19 @@ def run_tail(dialect, L, P, tokens, full_error_handling=True):
     lx = L()
     lx.tokenize = lambda text: gen()
     parser = P()
+    first = []
+    orig_error = parser.error
+
+    def error(*a, **k):
+        # observe (not alter) the first error report: later re-parses by ErrorHandling overwrite parser.error_info
+        res = orig_error(*a, **k)
+        if not first:
+            first.append(getattr(parser, 'error_info', None))
+        return res
+    parser.error = error
     mindsdb_sql.get_lexer_parser = lambda d: (lx, parser)
     r = PathResult()
+    r.first_error = first
     r.parser = parser
     r.exc = None
     r.ast = None
